@@ -89,8 +89,10 @@ pub fn compare(original: &str, transformed: &str, opts: &ExecOpts) -> Cmp {
         if !opts.both_dialects {
             // Luau-only input: a difference that disappears under Lua 5.1's arithmetic / formatting rules depends on
             // behaviour where the two dialects disagree, which the properties leave out
-            if let Cmp::Same = compare_in(original, transformed, opts, true) {
-                return Cmp::Discard("difference only under Luau-specific arithmetic/formatting (dialect-dependent)".into());
+            match compare_in(original, transformed, opts, true) {
+                Cmp::Same => return Cmp::Discard("difference only under Luau-specific arithmetic/formatting (dialect-dependent)".into()),
+                Cmp::Discard(why) => return Cmp::Discard(format!("dialect-dependent: under Lua 5.1 semantics {}", why)),
+                _ => {}
             }
         }
     }
